@@ -309,6 +309,11 @@ class ProgBase(HookMixin, ContextMixin, Process):
         super().load_instance_state(saved_state, load_context)
         world.cur().extra.setdefault('instances', []).append(self)
 
+    def get_status_info(self, out_status_info):
+        # the documented extension point: a subclass adds its own entries to the status information
+        super().get_status_info(out_status_info)
+        out_status_info.update({'pv_status': self.status, 'pv_pid': str(self.pid)})
+
     # ---- trace helpers ----
     def _t(self, kind, idx, **extra):
         entry = {
